@@ -94,7 +94,12 @@ def project_stack(stack):
     try:
         for item in stack.items[stack.protected:]:
             t = terms.ptype(terms.strip_annots(type(item).as_micheline_expr()))
-            out.append((t, terms.pval(t, item.to_micheline_value(mode='readable'))))
+            try:
+                v = terms.pval(t, item.to_micheline_value(mode='readable'))
+            except (KeyError, TypeError, ValueError, IndexError, AssertionError, AttributeError) as e:
+                # the value does not have the shape of the type pytezos says it has: an observation, not a machinery failure
+                v = ('#value-does-not-fit-its-type', type(e).__name__)
+            out.append((t, v))
     finally:
         terms.LIM = lim
     return tuple(out)
